@@ -396,7 +396,7 @@ def in_paper(e):
     """did the exception come out of a shadow ("paper") copy's run()? (outside the engine step model)"""
     import traceback
     for fr in traceback.extract_tb(e.__traceback__):
-        if fr.line and "_paper.run()" in fr.line:
+        if fr.line and "self._paper." in fr.line:
             return True
     return False
 
